@@ -360,7 +360,14 @@ class Daemon(object):
         except Exception as x:
             log.debug("handshake failed, reason:", exc_info=True)
             serializer = serializers.serializers_by_id[serializer_id]
-            data = serializer.dumps(str(x))
+            try:
+                reason = str(x)
+            except Exception:
+                reason = "handshake refused (%s)" % type(x).__name__    # the exception has no usable text form
+            try:
+                data = serializer.dumps(reason)
+            except UnicodeError:
+                data = serializer.dumps(reason.encode("ascii", "backslashreplace").decode("ascii"))   # text this serializer can't encode
             msgtype = protocol.MSG_CONNECTFAIL
         # We need a minimal amount of response data or the socket will remain blocked
         # on some systems... (messages smaller than 40 bytes)
